@@ -10,6 +10,7 @@ import struct
 import numpy as np
 
 from harness import costdef, curves, numeric, par
+from harness import enums
 
 METRICS = ["r2", "rmspe", "rmsle", "rpd", "smape"]
 
@@ -50,7 +51,7 @@ def _query_events(P, metric, queries, exprs=None, rel=1e-9):
     """run a history against one shared dict and against fresh caches; returns one event per query."""
     import kneeliverse.evaluation as ev
     import kneeliverse.metrics as metrics
-    M = metrics.Metrics(metric)
+    M = enums.pick(metrics.Metrics, metric)
     shared = {}
     events = []
     n = len(P)
@@ -197,7 +198,7 @@ def _record_big(item):
     r = rng.randint(n - 5000, n - 3)
     queries = [[0, r, n - 1], [0, 1, r, n - 1], [0, 2, r, n - 1], [0, r, n - 1], [0, 1, 2, r, n - 1]]
     rng.shuffle(queries)
-    M = metrics.Metrics(metric)
+    M = enums.pick(metrics.Metrics, metric)
     shared = {}
     events = []
     for S in queries:
